@@ -209,6 +209,8 @@ class C16(Prop):
     required_labels = {'quick': ['nontrivial=True', 'why_name=True', 'why_class=True', 'why_freeze=True', 'shared=True', 'variant=gpt', 'variant=kaisa'],
                        'thorough': ['nontrivial=True', 'why_name=True', 'why_class=True', 'why_freeze=True', 'shared=True']}
 
+    fuzz = {'thorough': {'runs': 8000, 'max_time': 60, 'procs': 4}}
+
     def strategy(self, tier):
         return st.one_of(_case(), _case(), _gpt_case())
 
